@@ -222,9 +222,9 @@ SPEC = {
     'deciding': ['model.dense==formula', 'model.hermitian', 'model.block-sparse', 'model.physical-charges', 'model.charge-conserving',
                  'linferm.dense==formula', 'linferm.CAR', 'linferm.charge-shift'],
     'workloads': [
-        Workload('grid', grid_case, quick=8 * 8 * 64, thorough=8 * 8 * 64 * 4),
-        Workload('random', random_case, quick=150, thorough=4000),
-        Workload('linear-fermionic', linear_fermionic_case, quick=200, thorough=4000),
+        Workload('grid', grid_case, quick=8 * 8 * 64, thorough=8 * 8 * 64 * 12),
+        Workload('random', random_case, quick=150, thorough=40000),
+        Workload('linear-fermionic', linear_fermionic_case, quick=200, thorough=32000),
     ],
     'shards': {'quick': 4, 'thorough': 16},
     'assumptions': ['textbook site operators and Jordan-Wigner Fock space in pvm/refs.py (self-tested: CAR)'],
